@@ -142,7 +142,59 @@ func genC09(seed uint64, tier string) *plan.Plan {
 		}
 		ph.Clients = append(ph.Clients, sc)
 	}
-	p.Phases = []plan.Phase{ph}
+	// Rewrite-after-expiry: many keys with the same short ttl are rewritten (plain Put, Put with a
+	// new ttl, NX, Incr, GetPut) in the tenths of a second after they expired, i.e. while background
+	// eviction is visiting them; every rewritten key must still be there afterwards.
+	if r.Bool(500) {
+		sc := plan.Script{ID: 9, Kind: "ctl"}
+		ttl := int64(r.Range(20, 200))
+		nk := r.Range(6, 24)
+		dense := r.Bool(600)
+		if dense {
+			// many keys in few partitions, rewritten about one per millisecond for longer than one
+			// eviction period: some rewrites land while the eviction pass is working on their fragment
+			nk = r.Range(40, 90)
+			p.Cluster.Partitions = uint64(max(n, Pick(r, 1, 3)))
+			p.Cluster.ReplicaCount = min(2, n)
+		}
+		for i := 0; i < nk; i++ {
+			op := plan.Op{K: "put", Key: fmt.Sprintf("r%02d", i), Val: fmt.Sprint(i), PX: ttl}
+			pickEntry(r, &op)
+			sc.Ops = append(sc.Ops, op)
+		}
+		first := 0
+		sc.Ops = append(sc.Ops, plan.Op{K: "ctl.sleep_rel", Ref: first, Dur: ttl + int64(nk) + int64(r.Range(2, 80))})
+		for i := 0; i < nk; i++ {
+			k := fmt.Sprintf("r%02d", i)
+			var op plan.Op
+			switch r.Intn(5) {
+			case 0:
+				op = plan.Op{K: "put", Key: k, Val: fmt.Sprint(100 + i), PX: 60000}
+			case 1:
+				op = plan.Op{K: "put", Key: k, Val: fmt.Sprint(100 + i), NX: true}
+			case 2:
+				op = plan.Op{K: "incr", Key: k, Delta: int64(100 + i)}
+			case 3:
+				op = plan.Op{K: "getput", Key: k, Val: fmt.Sprint(100 + i)}
+			default:
+				op = plan.Op{K: "put", Key: k, Val: fmt.Sprint(100 + i)}
+			}
+			op.D = int64(Pick(r, 0, 500, 4000, 15000))
+			if dense {
+				op.D = int64(Pick(r, 300, 1000, 2500))
+			}
+			pickEntry(r, &op)
+			sc.Ops = append(sc.Ops, op)
+		}
+		sc.Ops = append(sc.Ops, plan.Op{K: "ctl.sleep", Dur: int64(Pick(r, 150, 400, 1000))})
+		for i := 0; i < nk; i++ {
+			op := plan.Op{K: "get", Key: fmt.Sprintf("r%02d", i)}
+			pickEntry(r, &op)
+			sc.Ops = append(sc.Ops, op)
+		}
+		ph.Clients = append(ph.Clients, sc)
+		p.Phases = []plan.Phase{ph}
+	}
 	return p
 }
 
